@@ -23,8 +23,11 @@ for f in sorted(glob.glob(f'/verif/replays/{pid}/*.json')):
     if (pid, sig) in have: continue
     d = j['detail']
     example = {k: d[k] for k in list(d)[:8]}
-    kf['findings'].append({"property": pid, "signature": sig, "status": "open",
-                           "what": what or "", "example": example, "case_id": j['case_id']})
+    entry = {"property": pid, "signature": sig, "status": "open", "what": what or "", "case_id": j['case_id']}
+    # one worked example per (property, root cause) is enough
+    if not any(f['property'] == pid and f.get('what') == (what or "") and 'example' in f for f in kf['findings']):
+        entry["example"] = example
+    kf['findings'].append(entry)
     n += 1
-json.dump(kf, open(path, 'w'), indent=1, ensure_ascii=False)
+json.dump(kf, open(path, 'w'), indent=0, ensure_ascii=False)
 print(f'adopted {n} signatures for {pid}')
